@@ -73,7 +73,9 @@ def text_special_forms():
     return [b"host.example.com.", b".", b"a.", b".a", b"A.B.Example", b" host", b"host ", b"host\0", b"\0", b"\0\0\0\0", b"h\0st", "\ufeffhost".encode(),
             b"host\n", b"host\r\n", b"\thost", b"xn--bcher-kva.example", b"*.example", b"host..example", b"-host", b"123", b"1.2.3.4", b"[::1]",
             "\u0130stanbul.example".encode(), "\u212aelvin.example".encode(), "STRA\u1e9eE.example".encode(), "\u00c9COLE.example".encode(), "\u01c5.example".encode(),
-            b"aaa://host:3868;transport=tcp", b"AAA://HOST", b"aaas://h;protocol=diameter", b"a" * 63 + b".", b"%41", b"a/../b", b"host:3868", b"\"q\""]
+            b"aaa://host:3868;transport=tcp", b"AAA://HOST", b"aaas://h;protocol=diameter", b"a" * 63 + b".", b"%41", b"a/../b", b"host:3868", b"\"q\"",
+            # the same name in several spellings, one after the other (a table of names seen so far must not hand back an earlier spelling)
+            b"peer.Example.COM", b"PEER.EXAMPLE.COM", b"peer.example.com", b"Peer.Example.Com", b"peer.example.com"]
 
 
 def uri_special_forms():
